@@ -37,8 +37,11 @@ import (
 //
 // Output: <ValidateAll> | <per-object>
 //
-//	ValidateAll = ERR (returned an error)  or  one letter per object: - success, R reported, D reported and deleted, ? absent from report
-//	per-object  = validateObject with the part store passed explicitly: - success, R reported
+//	ValidateAll = ERR (returned an error)  or  one letter per object, from the report of the REAL ValidateAll checked
+//	              against the storage afterwards: - success, R reported, D reported + ActionTaken "Deleted" + gone,
+//	              ? absent from the report, ! ActionTaken and the object's presence afterwards disagree;
+//	              followed by :<TotalObjects>/<FailedObjects>/<DeletedObjects>
+//	per-object  = validateObject (before ValidateAll ran) with the part store passed explicitly: - success, R reported
 type c39 struct{}
 
 func init() { register("C39", c39{}) }
@@ -288,7 +291,10 @@ func (c39) Run(in string, scratch string) Result {
 				all[i] = '!'
 			}
 		}
-		va = string(all)
+		va = fmt.Sprintf("%s:%d/%d/%d", string(all), report.TotalObjects, report.FailedObjects, report.DeletedObjects)
+		if report.SuccessfulObjects+report.FailedObjects != report.TotalObjects || report.TotalBuckets != 1 {
+			va += "!counters"
+		}
 	}
 	out := va + " | " + string(per)
 
@@ -310,6 +316,8 @@ func (c39) Run(in string, scratch string) Result {
 			continue
 		}
 		switch {
+		case vaOK && !inf.corrupt && va[i] == 'D':
+			oracle = fmt.Sprintf("FAIL:intact object %d (%s) was DELETED by ValidateAll in delete mode", i, inf.kind)
 		case inf.corrupt && per[i] != 'R':
 			oracle = fmt.Sprintf("FAIL:corrupted object %d (%s:%s) is not reported by validateObject", i, inf.kind, inf.faults)
 		case !inf.corrupt && per[i] != '-':
@@ -317,7 +325,9 @@ func (c39) Run(in string, scratch string) Result {
 		case vaOK && inf.corrupt && va[i] != 'R' && va[i] != 'D':
 			oracle = fmt.Sprintf("FAIL:corrupted object %d not reported by ValidateAll", i)
 		case vaOK && !inf.corrupt && va[i] != '-':
-			oracle = fmt.Sprintf("FAIL:intact object %d reported/deleted by ValidateAll", i)
+			oracle = fmt.Sprintf("FAIL:intact object %d (%s) reported by ValidateAll", i, inf.kind)
+		case vaOK && mode != "D" && va[i] == 'D':
+			oracle = fmt.Sprintf("FAIL:object %d deleted although delete mode is off", i)
 		case vaOK && mode == "D" && inf.corrupt && va[i] != 'D':
 			oracle = fmt.Sprintf("FAIL:corrupted object %d not deleted in delete mode", i)
 		}
@@ -336,6 +346,8 @@ func (c39) Run(in string, scratch string) Result {
 	if hasEmpty {
 		tags = append(tags, "empty-object")
 	}
-	tags = append(tags, "kf:C39-find-partstore")
+	if vaOK && mode == "D" && anyCorrupt {
+		tags = append(tags, "deletes")
+	}
 	return Result{Out: out, Oracle: oracle, Tags: tags}
 }
